@@ -156,6 +156,51 @@ FreshCells == \A i \in 1..Len(FreshSeq) :
   \/ (o.status = "value" /\ o.v = FreshExpected(FreshSeq[i].shape, IF FreshSeq[i].ik = "neg" THEN -1 ELSE 10))
   \/ (PrintT(<<"FRESHCELLS", FreshSeq[i], o>>) /\ FALSE)
 
+\* a compound assignment whose RIGHT operand writes the same cell (nested assignment, through an alias, through a
+\* closure): the update is computed from the content at the moment of the update, and the result is what was stored
+RhsOps == <<"+=", "-=", "*=", "&=", "|=", "^=", "/=", "%=", "<<=", ">>=">>
+RhsWrites(route, op) ==
+  <<Set("c", MutE(WInt, I(1))), Set("al", V("c")), Set("cs", ArrE(<<V("c")>>)),
+    Set("w", FnE(<<>>, WInt, <<Ret(Asg("=", V("c"), I(3)))>>)),
+    Set("r", Asg(op, V("c"), CASE route = "nested" -> Asg("=", V("c"), I(3))
+                               [] route = "alias" -> Asg("=", V("al"), I(3))
+                               [] route = "array" -> Asg("=", At(V("cs"), I(0)), I(3))
+                               [] route = "closure" -> CallE(V("w"), <<>>)
+                               [] route = "compound" -> Asg("+=", V("c"), I(2)))),
+    TupE(<<V("r"), Deref(V("c"))>>)>>
+RhsSeq == SetToSeq({<<rt, o>> : rt \in {"nested", "alias", "array", "closure", "compound"}, o \in 1..Len(RhsOps)})
+RhsOut(i) == Outcome(Run(RhsWrites(RhsSeq[i][1], RhsOps[RhsSeq[i][2]]), 2000))
+RhsLaw == \A i \in 1..Len(RhsSeq) :
+  LET o == RhsOut(i)
+      r == ApplyBin(SubSeq(RhsOps[RhsSeq[i][2]], 1, Len(RhsOps[RhsSeq[i][2]]) - 1), IntV(3), IntV(3)) IN
+  \/ (o.status = "value" /\ o.v.es[1] = o.v.es[2] /\ o.v.es[1] = r)
+  \/ (PrintT(<<"RHSLAW", RhsSeq[i], o>>) /\ FALSE)
+
+\* `mut e' without a declared type: the cell's type is the STATIC type of e, not the type of the value e happens to
+\* have — a later assignment of another member of that type is legal, and the cell still is a `mut' of the wide type
+WideProg(k) ==
+  CASE k = "union-param" ->
+         <<FnDecl("mkc", <<P("p", IF_)>>, WTup(<<WInt, IF_>>),
+                  <<Set("c", MutU(IF_, V("p"))), Asg("=", V("c"), F(5)),
+                    Set("t", IfSet("d", WMut(IF_), V("c"), I(1), I(0))), Ret(TupE(<<V("t"), Deref(V("c"))>>))>>),
+           CallE(V("mkc"), <<I(1)>>)>>
+    [] k = "any-param" ->
+         <<FnDecl("mkc", <<P("p", WAny)>>, WTup(<<WInt, WAny>>),
+                  <<Set("c", MutU(WAny, V("p"))), Asg("=", V("c"), S(<<115>>)),
+                    Set("t", IfSet("d", WMut(WAny), V("c"), I(1), I(0))), Ret(TupE(<<V("t"), Deref(V("c"))>>))>>),
+           CallE(V("mkc"), <<I(1)>>)>>
+    [] k = "empty-array" ->
+         <<Set("e", Hide(WArr(WInt), ArrE(<<>>))), Set("c", MutU(WArr(WInt), V("e"))), Asg("+=", V("c"), ArrE(<<I(1)>>)),
+           Set("t", IfSet("d", WMut(WArr(WInt)), V("c"), I(1), I(0))), TupE(<<V("t"), Deref(V("c"))>>)>>
+    [] k = "hidden-union" ->
+         <<Set("u", Hide(IF_, I(1))), Set("c", MutU(IF_, V("u"))), Set("al", V("c")), Asg("=", V("al"), F(5)),
+           Set("t", IfSet("d", WMut(WInt), V("c"), I(1), I(0))), TupE(<<V("t"), Deref(V("c"))>>)>>
+WideSeq == <<"union-param", "any-param", "empty-array", "hidden-union">>
+WideOut(i) == Outcome(Run(WideProg(WideSeq[i]), 2000))
+WideLaw == \A i \in 1..Len(WideSeq) :
+  \/ (WideOut(i).status = "value" /\ WideOut(i).v.es[1] = IntV(IF WideSeq[i] = "hidden-union" THEN 0 ELSE 1))
+  \/ (PrintT(<<"WIDELAW", WideSeq[i], WideOut(i)>>) /\ FALSE)
+
 WatchNames == <<"c", "other", "s0", "y1", "s1", "y2", "s2">>
 HSeq == SetToSeq(Hists)
 N == Len(HSeq)
@@ -196,8 +241,15 @@ Emit ==
                          watch |-> W(i)]]
         \o [i \in 1..Len(FreshSeq) |-> [id |-> "c13-fresh-" \o FreshSeq[i].shape \o (IF FreshSeq[i].u THEN "-untyped-" ELSE "-typed-") \o FreshSeq[i].ik,
                                         suite |-> "c13", prog |-> FreshProg(FreshSeq[i].shape, FreshSeq[i].u, FreshSeq[i].ik),
-                                        exp |-> FreshOut(i), watch |-> <<>>]])
-  /\ FreshCells
+                                        exp |-> FreshOut(i), watch |-> <<>>]]
+        \o [i \in 1..Len(RhsSeq) |-> [id |-> "c13-rhs-writes-" \o RhsSeq[i][1] \o "-" \o ToString(RhsSeq[i][2]), suite |-> "c13",
+                                      prog |-> RhsWrites(RhsSeq[i][1], RhsOps[RhsSeq[i][2]]), exp |-> RhsOut(i), watch |-> <<>>]]
+        \o [i \in 1..Len(WideSeq) |-> [id |-> "c13-untyped-wide-" \o WideSeq[i], suite |-> "c13", prog |-> WideProg(WideSeq[i]),
+                                       exp |-> WideOut(i), watch |-> <<>>,
+                                       \* the untyped cell takes the STATIC type of its initial value: with the operand
+                                       \* visible that type is narrower and the program is another program
+                                       notwin |-> TRUE]])
+  /\ FreshCells /\ RhsLaw /\ WideLaw
   /\ ndJsonSerialize(IOEnv.VERIF_OUT \o "/c13_neg_cases.ndjson",
         [i \in 1..Len(NegSeq) |-> [id |-> "c13-neg-" \o ToString(i), suite |-> "c13", negative |-> TRUE,
                                    prog |-> NegProg(NegSeq[i].n, NegSeq[i].al),
